@@ -6,7 +6,8 @@ NUMS = [0.0, 1.0, 0.5, 0.1, 0.25, 2.0, 3, 7, 10, 100, 440.0, 880, -1.0, -0.3,
 LAGS = [0.1, 0.2, 0.5, 0.02, 1.0, 2, 0.05, 3.5]
 
 
-def gen_program(rng, idx):
+def gen_program(rng, idx, plain=False, prepend_p=(0.15, 0.35)):
+    """plain: no 'special' feature (programs of a session, see gen_session)"""
     size_class = rng.choices(['small', 'medium', 'large'], [30, 45, 25])[0]
     total = {'small': rng.randint(0, 4), 'medium': rng.randint(5, 12),
              'large': rng.randint(13, 40)}[size_class]
@@ -51,7 +52,7 @@ def gen_program(rng, idx):
     for k in range(nfuncs):
         fname = f'g{k}'
         prepend = 0
-        if rng.random() < (0.15 if k == 0 else 0.35):
+        if rng.random() < (prepend_p[0] if k == 0 else prepend_p[1]):
             prepend = rng.choice([1, 1, 2])
         params = []
         allow_missing = True
@@ -116,6 +117,8 @@ def gen_program(rng, idx):
     # variant of the program without it)
     special = rng.choices([None, 'fw', 'empty', 'slag', 'fb'],
                           [50, 20, 4, 8, 18])[0]
+    if plain:
+        special = None
     if special == 'fw':
         add_failing_wraps(rng, funcs, new_param)
     elif special == 'fb':
@@ -567,16 +570,31 @@ def param_source(p):
         s += (' = ' if sp else '=') + repr(d[1])
     elif d[0] == 'invalid':
         s += (' = ' if sp else '=') + d[1]
+    elif d[0] == 'tuple' and p.get('default_obj'):
+        s += (' = ' if sp else '=') + p['default_obj']   # a shared tuple object
     elif d[0] == 'tuple':
-        body = ', '.join(repr(x) for x in d[1]) + (',' if len(d[1]) == 1 else '')
-        s += (' = ' if sp else '=') + f'({body})'
+        s += (' = ' if sp else '=') + tuple_source(d[1])
     return s
 
 
-def source(prog):
+def tuple_source(vals):
+    body = ', '.join(repr(x) for x in vals) + (',' if len(vals) == 1 else '')
+    return f'({body})'
+
+
+def source(prog, define_shared=True):
     """python text of the graph functions; every body hands its local
-    variables to the harness callback __body__(function name, locals())."""
+    variables to the harness callback __body__(function name, locals()).
+    Tuple objects that are the default of several parameters are module
+    level names (define_shared=False: the namespace provides them)."""
     out = []
+    if define_shared:
+        tup = {}
+        for f in prog['funcs'].values():
+            for p in f['params']:
+                if p.get('default_obj'):
+                    tup[p['default_obj']] = tuple_source(p['default'][1])
+        out += [f'{k} = {v}' for k, v in sorted(tup.items())]
     for f in prog['funcs'].values():
         if 'alias_of' in f:
             continue        # the same python function, wrapped once more
@@ -591,7 +609,8 @@ def describe(prog):
     d = {'source': source(prog), 'definition_name': prog['name']}
     for f in prog['funcs'].values():
         if f['rates'] is not None or f['prepend'] or f['wraps'] \
-                or f.get('fails') or 'alias_of' in f or f.get('body_fails'):
+                or f.get('fails') or 'alias_of' in f or f.get('body_fails') \
+                or 'rates_obj' in f:
             d[f['name']] = {'rates': f['rates'], 'prepend': f['prepend_values'],
                             'wraps': f['wraps']}
             if f.get('fails'):
@@ -601,6 +620,13 @@ def describe(prog):
                 d[f['name']]['then_fallback'] = f['fallback']
             if 'alias_of' in f:
                 d[f['name']]['same_function_as'] = f['alias_of']
+            if 'rates_obj' in f:
+                d[f['name']]['rates_is_shared_object'] = f['rates_obj']
+            if 'prepend_obj' in f:
+                d[f['name']]['prepend_is_shared_object'] = f['prepend_obj']
+    for k in ('entry', 'variants_obj', 'metadata_obj'):
+        if k in prog:
+            d[k] = prog[k]
     if prog['specs']:
         d['specs'] = prog['specs']
     if prog['variants']:
@@ -618,3 +644,188 @@ def nontrivial(prog, lay):
                      if not f.get('fails')]) > 1
              or any(f['prepend'] for f in prog['funcs'].values()))
     return len(rates) >= 2 and extra
+
+
+# ---------------------------------------------------------------------------
+# sessions: several builds that share their ARGUMENT OBJECTS
+
+def control_params(f):
+    return f['params'][f['prepend']:]
+
+
+def variant_names(prog):
+    """{name: param} of the controls a variant may address: declared exactly
+    once in the definition, with at least one slot"""
+    live = [f for f in prog['funcs'].values() if not f.get('fails')]
+    names = [p['name'] for f in live for p in control_params(f)]
+    by = {p['name']: p for f in live for p in control_params(f)}
+    return {n: by[n] for n in names if names.count(n) == 1
+            and by[n]['default'] != ('tuple', [])}
+
+
+def gen_session(rng, idx):
+    """2-4 plain programs of DIFFERENT signatures built one after the other
+    in one process - by the constructor (keyword / positional arguments) or
+    the synthdef decorator - whose argument objects are shared:
+      R  one rates list object given to 2-5 function entries (top functions
+         and / or SynthDef.wrap calls, of one build or of several) with
+         different numbers of control parameters, the list shorter, equal or
+         longer than each of them, in whatever order the builds use it;
+      P  one prepend list object given to 2-4 function entries with the same
+         number of prepended parameters (and otherwise different signatures);
+      V  one variants dict (and its inner dicts / value lists) given to 2-n
+         definitions that declare the addressed names at different slots;
+      M  one metadata dict (one 'specs' dict, the same spec objects) given to
+         2-n definitions;
+      T  one tuple object that is the default of 2-4 parameters of different
+         functions.
+    -> {'programs': [prog, ...], 'shared': {id: {'kind', 'value'}}}; the
+    program descriptions hold COPIES of the values (what the model reads), the
+    ids say which run-time object is handed to the library."""
+    import copy
+    n = rng.choice([2, 2, 3, 3, 4])
+    progs = []
+    for k in range(n):
+        p = gen_program(rng, idx, plain=True, prepend_p=(0.35, 0.45))
+        p['entry'] = rng.choices(['keywords', 'positional', 'decorator'],
+                                 [40, 25, 35])[0]
+        names = [q['name'] for f in p['funcs'].values()
+                 for q in control_params(f)]
+        if p['entry'] == 'decorator' and len(set(names)) < len(names):
+            # the decorator also adds the definition to the description
+            # library, which refuses repeated control names (SynthDescError)
+            p['entry'] = 'keywords'
+        # the decorator names the definition after the function
+        p['name'] = p['top'] if p['entry'] == 'decorator' \
+            else f's{idx % 100000}x{k}'
+        progs.append(p)
+    shared = {}
+
+    def new_id(kind, value):
+        sid = f'{kind}{len(shared) + 1}'
+        shared[sid] = {'kind': kind, 'value': value}
+        return sid
+
+    entries = [(k, f) for k, p in enumerate(progs) for f in p['funcs'].values()]
+
+    # -- T: shared default tuples (same length: sizes stay what the rest of
+    # the program description was generated for) -------------------------
+    if rng.random() < 0.6:
+        groups = {}
+        for k, f in entries:
+            py = f.get('alias_of', f['name'])
+            for pos, q in enumerate(f['params']):
+                if pos >= f['prepend'] and q['default'][0] == 'tuple' \
+                        and len(q['default'][1]) >= 1:
+                    groups.setdefault((k, py, pos), []).append(q)
+        bylen = {}
+        for key, qs in groups.items():
+            bylen.setdefault(len(qs[0]['default'][1]), []).append(key)
+        lens = sorted(ln for ln, keys in bylen.items() if len(keys) >= 2)
+        for ln in rng.sample(lens, min(len(lens), rng.choice([1, 1, 2]))):
+            keys = rng.sample(bylen[ln], rng.randint(2, min(4, len(bylen[ln]))))
+            vals = [rng.choice(NUMS) for _ in range(ln)]
+            tid = new_id('T', list(vals))
+            for key in keys:
+                for q in groups[key]:
+                    q['default'] = ('tuple', list(vals))
+                    q['default_obj'] = tid
+
+    # -- R: shared rates lists -----------------------------------------------
+    if rng.random() < 0.9:
+        for _ in range(rng.choice([1, 1, 2])):
+            free = [e for e in entries if 'rates_obj' not in e[1]]
+            if len(free) < 2:
+                break
+            chosen = rng.sample(free, rng.randint(2, min(5, len(free))))
+            ctls = [control_params(f) for _, f in chosen]
+            hi = max(len(c) for c in ctls)
+            ln = rng.choice([hi, hi, hi + 1, hi + 2, rng.randint(0, hi),
+                             max(0, hi - 1)])
+            ln = max(ln, 1)
+            L = []
+            for j in range(ln):
+                here = [c[j] for c in ctls if j < len(c)]
+                r = rng.random()
+                if r < 0.22:
+                    e = None
+                elif r < 0.32:
+                    e = rng.choice([0, 0.0])
+                elif r < 0.55:
+                    e = rng.choice(LAGS)
+                elif r < 0.85:
+                    e = rng.choice(['ar', 'kr', 'ir', 'tr'])
+                elif here and all(q['default'][0] == 'tuple'
+                                  and len(q['default'][1]) >= 2 for q in here):
+                    size = len(here[0]['default'][1])
+                    e = [rng.choice(LAGS + [0.0])
+                         for _ in range(rng.choice([1, 2, size, size + 1]))]
+                else:
+                    e = rng.choice(LAGS)
+                L.append(e)
+            rid = new_id('R', L)
+            for _, f in chosen:
+                f['rates'] = copy.deepcopy(L)
+                f['rates_obj'] = rid
+
+    # -- P: shared prepend lists ---------------------------------------------
+    if rng.random() < 0.7:
+        byc = {}
+        for k, f in entries:
+            if f['prepend']:
+                byc.setdefault(f['prepend'], []).append(f)
+        cands = sorted(c for c, v in byc.items() if len(v) >= 2)
+        if cands:
+            c = rng.choice(cands)
+            chosen = rng.sample(byc[c], rng.randint(2, min(4, len(byc[c]))))
+            vals = [('num', 7700.5 + j) if rng.random() < 0.7
+                    else ('str', f'q{j}') for j in range(c)]
+            pid = new_id('P', vals)
+            for f in chosen:
+                f['prepend_values'] = list(vals)
+                f['prepend_obj'] = pid
+
+    # -- V: shared variants dicts ----------------------------------------------
+    if rng.random() < 0.75:
+        ks = sorted(rng.sample(range(n), rng.randint(2, n)))
+        vn = [variant_names(progs[k]) for k in ks]
+        common = sorted(set.intersection(*[set(d) for d in vn]),
+                        key=lambda s: int(s[1:]))
+        if common:
+            V = {}
+            for v in range(rng.randint(1, 3)):
+                pairs = {}
+                for nm in rng.sample(common, rng.randint(1, min(4, len(common)))):
+                    ps = [d[nm] for d in vn]
+                    if all(q['default'][0] == 'tuple' for q in ps) \
+                            and rng.random() < 0.7:
+                        m = rng.randint(1, min(len(q['default'][1]) for q in ps))
+                        pairs[nm] = [rng.choice(NUMS) for _ in range(m)]
+                    else:
+                        pairs[nm] = rng.choice(NUMS)
+                V[f'v{v}'] = pairs
+            vid = new_id('V', V)
+            for k in ks:
+                progs[k]['variants'] = copy.deepcopy(V)
+                progs[k]['variants_obj'] = vid
+
+    # -- M: shared metadata dicts ------------------------------------------------
+    if rng.random() < 0.65:
+        ks = sorted(rng.sample(range(n), rng.randint(2, n)))
+        names = []
+        for k in ks:
+            ctl = [q for f in progs[k]['funcs'].values()
+                   for q in control_params(f)]
+            unset = [q['name'] for q in ctl
+                     if q['default'][0] in ('missing', 'none')]
+            names += rng.sample(unset, min(len(unset), rng.randint(1, 3)))
+            anyn = [q['name'] for q in ctl]
+            names += rng.sample(anyn, min(len(anyn), rng.randint(0, 2)))
+        S = {nm: rng.choice([0.3, 7, 9.5, 0.01, 220.0])
+             for nm in dict.fromkeys(names)}
+        if S:
+            mid = new_id('M', S)
+            for k in ks:
+                progs[k]['specs'] = dict(S)
+                progs[k]['metadata_obj'] = mid
+    return {'programs': progs, 'shared': shared}
